@@ -53,7 +53,9 @@ type ReplayFn = fn(&str, &serde_json::Value) -> Result<common::CheckResult, Stri
 
 fn registry(id: &str) -> Option<(&'static str, RunFn, ReplayFn)> {
     Some(match id {
+        "C15" => ("C15", props::c15::run, props::c15::replay),
         "C02" => ("C02", props::c02::run, props::c02::replay),
+        "C06" => ("C06", props::c06::run, props::c06::replay),
         "C07" => ("C07", props::c07::run, props::c07::replay),
         "C08" => ("C08", props::c08::run, props::c08::replay),
         "C12" => ("C12", props::c12::run, props::c12::replay),
